@@ -180,7 +180,7 @@ Proof.
     match goal with E : release_in _ _ _ = _ |- _ => exact (release_in_shape _ _ _ _ _ E) end.
 Qed.
 
-Lemma release_all_shape node ps : forall m m' r, release_all m node ps = (m', r) -> shape m' = shape m.
+Lemma release_all_shape svcs node ps : forall m m' r, release_all svcs m node ps = (m', r) -> shape m' = shape m.
 Proof.
   induction ps as [|p ps IH]; intros m m' r H; cbn in H; [inversion H; reflexivity|].
   destruct (get_entry m p) as [c|]; [|inversion H; reflexivity].
@@ -190,7 +190,7 @@ Proof.
   - inversion H; subst. apply shape_set_entry.
 Qed.
 
-Lemma release_cidr_shape m node m' r : release_cidr m node = (m', r) -> shape m' = shape m.
+Lemma release_cidr_shape svcs m node m' r : release_cidr svcs m node = (m', r) -> shape m' = shape m.
 Proof.
   unfold release_cidr. intros H. destruct (n_cidrs node); [inversion H; reflexivity|].
   destruct (assoc_paths m (n_name node)); [inversion H; reflexivity|]. eapply release_all_shape. exact H.
@@ -203,12 +203,12 @@ Proof.
   destruct ps; [inversion H; reflexivity|]. eapply occupy_try_shape. exact H.
 Qed.
 
-Theorem sync_node_shape po lab canp apisame held m cached reread outs m' r fx :
-  sync_node po lab canp apisame held m cached reread outs = (m', r, fx) -> shape m' = shape m.
+Theorem sync_node_shape po lab svcs canp apisame held m cached reread outs m' r fx :
+  sync_node po lab svcs canp apisame held m cached reread outs = (m', r, fx) -> shape m' = shape m.
 Proof.
   unfold sync_node. intros H. destruct cached as [node|]; [|inversion H; reflexivity].
   destruct (n_deleting node).
-  - destruct (release_cidr m node) as [m1 r1] eqn:Er. inversion H; subst. eapply release_cidr_shape. exact Er.
+  - destruct (release_cidr svcs m node) as [m1 r1] eqn:Er. inversion H; subst. eapply release_cidr_shape. exact Er.
   - unfold allocate_or_occupy in H. destruct (n_cidrs node).
     + destruct (prioritized_cidrs po lab held m node) as [m1 rp] eqn:Ep.
       assert (S1 : shape m1 = shape m).
@@ -238,7 +238,7 @@ Proof.
   destruct ps as [|p ps]; [cbn; discriminate|]. apply occupy_try_no_panic. eapply ordered_matching_valid; eassumption.
 Qed.
 
-Lemma release_all_no_panic node ps : forall m, Forall (valid m) ps -> snd (release_all m node ps) <> Panic.
+Lemma release_all_no_panic svcs node ps : forall m, Forall (valid m) ps -> snd (release_all svcs m node ps) <> Panic.
 Proof.
   induction ps as [|p ps IH]; intros m Hv; cbn; [discriminate|].
   inversion Hv; subst. destruct (valid_some _ _ H1) as (e & He). rewrite He.
@@ -251,7 +251,7 @@ Proof.
   apply IH. eapply Forall_impl; [|exact H2]. intros q Hq. eapply shape_valid; [symmetry; apply shape_set_entry|exact Hq].
 Qed.
 
-Lemma release_cidr_no_panic m node : snd (release_cidr m node) <> Panic.
+Lemma release_cidr_no_panic svcs m node : snd (release_cidr svcs m node) <> Panic.
 Proof.
   unfold release_cidr. destruct (n_cidrs node) as [|pc0 pcs]; [cbn; discriminate|].
   pose proof (assoc_paths_valid m (n_name node)) as Hv.
@@ -302,12 +302,12 @@ Proof.
 Qed.
 
 (* C12: a node work item never panics *)
-Theorem sync_node_no_panic po lab canp apisame held m cached reread outs :
-  MapInv m -> KU m -> snd (fst (sync_node po lab canp apisame held m cached reread outs)) <> Panic.
+Theorem sync_node_no_panic po lab svcs canp apisame held m cached reread outs :
+  MapInv m -> KU m -> snd (fst (sync_node po lab svcs canp apisame held m cached reread outs)) <> Panic.
 Proof.
   intros M HK. unfold sync_node. destruct cached as [node|]; [|cbn; discriminate].
   destruct (n_deleting node).
-  - pose proof (release_cidr_no_panic m node) as Hn. destruct (release_cidr m node) as [m1 r1]. exact Hn.
+  - pose proof (release_cidr_no_panic svcs m node) as Hn. destruct (release_cidr svcs m node) as [m1 r1]. exact Hn.
   - unfold allocate_or_occupy. destruct (n_cidrs node) as [|pc0 pcs].
     + destruct (prioritized_cidrs po lab held m node) as [m1 rp] eqn:Ep.
       assert (Hrp : rp <> Panic).
